@@ -15,7 +15,7 @@
 (*                                                                                           *)
 (* The module is a MONITOR: a record `a` and one total operator per observable event that    *)
 (* returns the next record.  The first inadmissible observation is stored in a.why and the   *)
-(* monitor freezes.  It is used (1) in product with the algorithm-level model Ring.tla, so   *)
+(* monitor freezes (one clause is only noted, in a.stale, see ARead).  It is used (1) in product with the algorithm-level model Ring.tla, so   *)
 (* that TLC checks exhaustively that the algorithm as coded satisfies the property on the    *)
 (* bounded configurations, and (2) by RingTrace.tla to judge executions recorded from the    *)
 (* real IoUring methods.  Verdicts on the implementation are taken here only.               *)
@@ -37,7 +37,8 @@ AbsInit(ns, nc) ==
             cq   |-> <<>>,   \* posted, not yet returned: stamps in posting order
             held |-> NONE,   \* stamp of the completion whose reference the application holds
             gap  |-> FALSE,  \* the kernel posted since that reference was returned
-            why  |-> ""]     \* first violated clause
+            stale |-> FALSE, \* some read saw an entry overwritten after its slot was released (see ARead)
+            why  |-> ""]     \* first violated clause (all clauses but the one recorded in `stale`)
 
 Flag(a, w) == [a EXCEPT !.why = w]
 Frozen(a) == a.why # ""
@@ -100,9 +101,11 @@ AReap(a, r) ==
 ARead(a, stamp) ==
     IF Frozen(a) THEN a
     ELSE IF a.held = NONE THEN Flag(a, "harness_read_protocol")
-    ELSE IF stamp # a.held THEN
-        Flag(a, IF a.gap THEN "content_overwritten_between_return_and_read" ELSE "wrong_completion_content")
-    ELSE [a EXCEPT !.held = NONE, !.gap = FALSE]
+    ELSE IF stamp # a.held /\ ~a.gap THEN Flag(a, "wrong_completion_content")
+    ELSE \* a wrong content after the kernel posted behind the returned reference is clause
+         \* "content_overwritten_between_return_and_read"; the monitor notes it and goes on (the lost
+         \* completion aside, the channels stay in step), so that the rest of the run is still judged
+         [a EXCEPT !.held = NONE, !.gap = FALSE, !.stale = @ \/ (stamp # a.held)]
 
 Clauses == {"panic_get_slot", "slot_refused_while_ring_not_full", "get_slot_pointer_outside_ring",
             "slot_handed_out_before_consumed", "panic_flush", "flushed_entry_not_visible_to_kernel",
